@@ -516,7 +516,8 @@ NewRev(r, kind, A, C, x) ==
 BeginRenew(s, kind, pf, cf, rf, A, C) ==
     /\ Idle(s)
     /\ act' = [op |-> "BeginRenew", s |-> s, kind |-> kind, pf |-> pf, cf |-> cf, rf |-> rf, na |-> A, nc |-> C]
-    /\ IF pf # "ok" \/ Locked \/ cf # "ok" \/ rf \notin {"ok", "poolbad"}
+    \* (a renewal / refresh is accepted only while the proof height is still far away: tipd <= -2 stands for that)
+    /\ IF pf # "ok" \/ Locked \/ tipd > -2 \/ cf # "ok" \/ rf \notin {"ok", "poolbad"}
        THEN Reject(s, "renew")
        ELSE /\ sess' = [sess EXCEPT ![s] = [IdleS EXCEPT !.rpc = "renew", !.round = 1, !.kind = kind, !.pend = Rep("resp", 0, <<>>),
                                                        !.cost = A, !.coll = C, !.late = (rf = "poolbad")]]
